@@ -89,6 +89,45 @@ def check_range_perm(case):
     return {"nontrivial": _nontrivial(A, np.eye(3) * 0 + gen.rot({"k": "q", "q": [0.3, 0.2, 0.1, 0.9]})), "labels": [case["sys"], case["tex"]["fam"]], "residual": e}
 
 
+def large_case(systems):
+    """The top of the stated range (1000..2000 grains, i.e. 5e5..2e6 pairs), with sizes around
+    pair counts of 2^19, 1e6 and 2^20 planted, and a texture that is inhomogeneous along the
+    grain list (random part followed by a tight cluster) so that losing or double-counting a
+    block of pairs shows up as a dependence on grain order."""
+    return st.fixed_dictionaries(
+        {
+            "sys": st.sampled_from(systems),
+            "n": st.one_of(st.sampled_from([1025, 1026, 1415, 1416, 1449, 1450, 2000]), st.integers(1000, 2000)),
+            "split": st.floats(0.3, 0.7),
+            "seed": gen.small_seed,
+            "base": gen.generic_rotation_spec(),
+            "perm": gen.small_seed,
+        }
+    )
+
+
+def check_large_perm(case):
+    n = case["n"]
+    n1 = max(2, int(round(case["split"] * n)))
+    rng = np.random.default_rng(case["seed"])
+    A_rand = gen._random_rotations(rng, n1)
+    base = gen.rot(case["base"])
+    w = rng.normal(scale=0.03, size=(n - n1, 3))
+    A_clu = np.stack([gen.axis_angle_matrix(v / max(np.linalg.norm(v), 1e-12), float(np.linalg.norm(v))) @ base for v in w])
+    A = np.clip(np.concatenate([A_rand, A_clu]), -1.0, 1.0)
+    system = _sys(case)
+    m = _m(A, system)
+    require(np.isfinite(m) and -1e-3 <= m <= 1 + 1e-3, f"M-index {m!r} outside [0,1] ({case['sys']}, {n} grains)")
+    m_rev = _m(A[::-1], system)
+    e = abs(m - m_rev)
+    require(e <= 1e-9, f"M-index of {n} grains changes by {e:.3e} when the grain list is reversed ({case['sys']}: {m:.6f} -> {m_rev:.6f})", e)
+    prm = np.random.default_rng(case["perm"]).permutation(n)
+    m_sh = _m(A[prm], system)
+    e2 = abs(m - m_sh)
+    require(e2 <= 1e-9, f"M-index of {n} grains changes by {e2:.3e} when grains are shuffled ({case['sys']}: {m:.6f} -> {m_sh:.6f})", e2)
+    return {"nontrivial": True, "labels": [case["sys"], "pairs>2^20" if n * (n - 1) // 2 > 2**20 else "pairs<=2^20"], "residual": max(e, e2)}
+
+
 def check_range_perm_known_thetamax(case):
     """Known finding R2 (theta_max truncated to 90 for tetragonal/hexagonal): pairs beyond
     90 degrees fall outside the histogram (NaN for tiny sets); everything else still checked."""
@@ -261,6 +300,7 @@ ORACLES = [
         quick=120,
         thorough=800,
     ),
+    Oracle("permutation_large", large_case(["triclinic"]), check_large_perm, classify=by_sys, quick=4, thorough=16),
     Oracle("frame_rotation", m_case(60), check_frame, classify=by_sys, quick=120, thorough=800),
     Oracle("symmetry_relabel", m_case(60), check_symmetry, classify=by_sys, quick=120, thorough=800),
     Oracle(
